@@ -75,6 +75,14 @@ def build_entry(kind, r):
         return [1, 2], c07.build(r['tree']), kw
     if kind == 'slotpath':
         return tg.build(r['target']).obj, r['path'], {}
+    if kind == 'raiser':
+        # a callable raising an exception of a class NAMED Timeout; which class that is (its base) differs between entries
+        import builtins
+        cls = type('Timeout', (getattr(builtins, r['base']),), {})
+
+        def site(t, cls=cls):
+            raise cls('timed out')
+        return {'a': 1}, {'k': site}, {}
     if kind == 'scopelit':
         # a container LITERAL in argument position is a template: every evaluation builds a new container from it
         lit = tg.build(r['lit']).obj
@@ -88,6 +96,8 @@ def build_entry(kind, r):
 
 def gen_entry(draw):
     kind = draw(st.sampled_from(['c03', 'c03', 'c01', 'c09', 'c10', 'c14', 'c14', 'c16', 'c17', 'c07', 'c07', 'slotpath', 'slotpath', 'scopelit']))
+    if kind == 'scopelit' and draw(st.booleans()):
+        return {'kind': 'raiser', 'recipe': {'base': draw(st.sampled_from(['ValueError', 'KeyError', 'LookupError', 'RuntimeError']))}}
     if kind == 'scopelit':
         form = draw(st.sampled_from(['svar', 'svar', 'default']))
         lits = [['dict', []], ['dict', [['seed', ['i', 0]]]]] if form == 'svar' else \
@@ -323,5 +333,5 @@ def check(recipe, ctx):
 
 SUBS = [
     Sub('history', check, gen=gen, quick=1600, thorough=4000,
-        floors={'toggle': 0.2, 'flood-small': 0.07, 'flood-big': 0.04, 'glommer-register': 0.12, 'shape-greg-sandwich': 0.03, 'shape-toggle-sandwich': 0.04, 'scope-literal': 0.06}),
+        floors={'toggle': 0.2, 'flood-small': 0.07, 'flood-big': 0.04, 'glommer-register': 0.12, 'shape-greg-sandwich': 0.03, 'shape-toggle-sandwich': 0.04, 'scope-literal': 0.03}),
 ]
